@@ -20,6 +20,7 @@ Go code by the differential run only; see the level note.
 -/
 import Gossamer.Lib.C04Stored
 import Gossamer.Lib.C04WriteMain
+import Gossamer.Lib.C04Chain
 import Gossamer.Model.C04
 namespace Gossamer.C04
 open Gossamer Gossamer.Trie Gossamer.TrieHeap
@@ -99,6 +100,75 @@ theorem C04_writeDirty_getFromDB (H : Bytes → Bytes) (hH : ∀ m, (H m).length
   · by_cases hz : H (TrieCodec.encode H N) = H [0]
     · exact Or.inr (Or.inl hz)
     · exact Or.inr (Or.inr (C04_getFromDB_stored H hH _ T N hs (hrep_wf T N r0 hr hsz) (HRep.ne_nil hr) hz hg key))
+
+/-! ### incremental writes along a line of snapshots -/
+
+/-- The states of ONE line of trie handles on the heap model, from `NewEmptyTrie()`: `Put`,
+    `SetVersion`, `Snapshot` (the line continues with the snapshot, as dot/state does), `WriteDirty`;
+    the last component is the pure trie (`Trie.put` of the same keys and values) the handle stands
+    for.  `depth T ≤ bigFuel` is the fuel of the model's recursions (100000 levels). -/
+inductive Line (H : Bytes → Bytes) : Heap → DB → Handle → Trie → Prop
+  | init (ver : Ver) : Line H Heap.empty [] { root := none, gen := 0, ver := ver } .nil
+  | put {hp : Heap} {db : DB} {h : Handle} {T : Trie} (l : Line H hp db h T) (hd : depth T ≤ bigFuel)
+      (k v : Bytes) : Line H (put H hp h k v).1 db (put H hp h k v).2 (Trie.put T k v)
+  | setVersion {hp : Heap} {db : DB} {h : Handle} {T : Trie} (l : Line H hp db h T) (ver : Ver) :
+      Line H hp db { h with ver := ver } T
+  | snapshot {hp : Heap} {db : DB} {h : Handle} {T : Trie} (l : Line H hp db h T) :
+      Line H hp db (snapshot h) T
+  | writeDirty {hp : Heap} {db : DB} {h : Handle} {T : Trie} (l : Line H hp db h T) (hd : depth T ≤ bigFuel) :
+      Line H (writeDirty H hp db h).1 (writeDirty H hp db h).2 h T
+
+/-- **Cache coherence of the copy-on-write `Put` as an invariant.**  In every state of a line the
+    handle's view is a tree that represents `T`, no cell of the handle's own generation is shared
+    between two positions, and every clean cell carries the Merkle value of its sub-trie, which the
+    database already stores ("clean ⇒ already in the database"). -/
+theorem C04_incremental_inv (H : Bytes → Bytes) (hH : ∀ m, (H m).length = 32) {hp : Heap} {db : DB}
+    {h : Handle} {T : Trie} (l : Line H hp db h T) : CInv H hp db h T := by
+  induction l with
+  | init ver => exact cinv_init H ver
+  | put _ hd k v ih => exact put_cinv H hH ih (Nat.le_succ_of_le hd) k v
+  | setVersion _ ver ih => exact setVersion_cinv H ih ver
+  | snapshot _ ih => exact snapshot_cinv H ih
+  | writeDirty _ hd ih => exact writeDirty_cinv H hH ih hd
+
+/-- **Incremental persistence (main trie; mutator `Put`).**  At ANY point of a line of snapshots —
+    whatever was written and persisted before — `WriteDirty` followed by `GetFromDB` on the root hash
+    that `Hash()` reports returns the in-memory value of EVERY key: the nodes that `WriteDirty` skips
+    because they are clean are already in the database.  Exceptions are spelled out: two DIFFERENT
+    stored values with the same hash, or a non-empty trie whose root hashes to the hash of the empty
+    trie's encoding `[0]`. -/
+theorem C04_incremental_partial (H : Bytes → Bytes) (hH : ∀ m, (H m).length = 32) {hp : Heap} {db : DB}
+    {h : Handle} {T : Trie} (l : Line H hp db h T) (hd : depth T ≤ bigFuel) (hsz : SizeOK T) (key : Bytes) :
+    ∃ root, (hash H (writeDirty H hp db h).1 h).2 = some root ∧
+      (Collision H (writeDirty H hp db h).2 ∨ (T ≠ .nil ∧ root = H [0]) ∨
+        getFromDB H (writeDirty H hp db h).2 root key = some (Trie.get T key)) := by
+  have inv := C04_incremental_inv H hH l
+  have hroot := inv.root
+  cases hr : h.root with
+  | none =>
+    rw [hr] at hroot
+    have hT : T = .nil := hroot
+    subst hT
+    refine ⟨H [0], ?_, Or.inr (Or.inr ?_)⟩
+    · show (hashRoot H _ h.root).2 = _
+      rw [hr]; rfl
+    · rw [C04_empty]; rfl
+  | some r0 =>
+    rw [hr] at hroot
+    obtain ⟨N, fp, hti, _⟩ := hroot
+    obtain ⟨_, _, _, h4, h5, _⟩ := writeDirty_stoG H hH hp db h r0 hr T N hti.rep hti.coh hd
+    have hcl := (Coh.clean h4 (HRep.ne_nil hti.rep) h5).1
+    refine ⟨H (TrieCodec.encode H N), ?_, ?_⟩
+    · show (hashRoot H _ h.root).2 = _
+      rw [hr]
+      show (calcRootMV H _ r0).2 = _
+      rw [calcRootMV_eq, if_pos ⟨h5, by rw [hcl]; simp [hH]⟩]
+      exact hcl
+    · rcases C04_writeDirty_getFromDB H hH hp db h r0 hr T N hti.rep hti.coh hd hsz inv.dbok key with
+        hc | hz | hg
+      · exact Or.inl hc
+      · exact Or.inr (Or.inl ⟨HRep.ne_nil hti.rep, hz⟩)
+      · exact Or.inr (Or.inr hg)
 
 /-! ### a concrete persisted state (V1, a hashed 40-byte value, an inlined sub-branch) -/
 
